@@ -24,7 +24,11 @@ NB, NNB = "\u00a0", "\u202f"
 LOCALES = [("US", [], ".", [",", NB, NNB]),
            ("decimal-comma", [("Language", "sv")], ",", [".", NB, NNB]),
            ("swiss", [("Language", "de-ch")], ",", ["'", ".", NB]),
-           ("forced-point", [("Language", "fi"), ("DecimalSeparator", ".")], ".", [",", NNB])]
+           ("forced-point", [("Language", "fi"), ("DecimalSeparator", ".")], ".", [",", NNB]),
+           # region tags in their BCP 47 spelling (upper-case region): a region that overrides its language (Mexico writes a decimal
+           # point, Spanish a comma), and the Swiss apostrophe
+           ("mexico-cased", [("Language", "es-MX")], ".", [",", NB, NNB]),
+           ("swiss-cased", [("Language", "de-CH")], ",", ["'", ".", NB])]
 
 
 def spell(w, cut, dec, blk, start):
@@ -243,7 +247,7 @@ def run(tier):
         "evaluations": len(events), "distinct_nontrivial": len({(tuple(e["w"]), tuple(e["sep"]), e["ctx"], e["blockIsComma"]) for e in events}),
         "rule": "written forms = every sequence over {digit, block separator, decimal mark} up to the bound that starts and ends with a digit or "
                 "mark and has a separator (TLC-enumerated); cuts = seeded (all cuts of forms with <= 3 separators in thorough); contexts = seeded "
-                "subset of the 12; locale = seeded among US, decimal comma (Language), Swiss, forced point; distinct_nontrivial = distinct abstract cases",
+                "subset of the 12; locale = seeded among US, decimal comma (Language), Swiss, forced point, es-MX, de-CH; distinct_nontrivial = distinct abstract cases",
         "exhaustive": False, "written_forms": len(forms), "forms_in_grammar": sum(1 for f in forms if f["number"]), "forms_not_numbers": sum(1 for f in forms if f["notNumber"]),
         "cases_by_class": classes, "trace_events_rejected": len(rejects),
     }, time.time() - t0, len(verdict.violations),
